@@ -125,7 +125,31 @@ func (e *concEnv) applyWrite(s *storage.MemCachedStore, w WOp, who string) {
 		}
 		ev.batch = true
 		ev.inv = e.sched.Seq()
-		_ = s.PutChangeSet(puts, stores)
+		if n%2 == 0 && len(all) >= 2 {
+			// the batch arrives the way a block does: two private layers (execution results and state changes in
+			// storeBlock) merged by one PersistPrivate call, which has to be ONE batch for every reader
+			p1, p2 := storage.NewPrivateMemCachedStore(s), storage.NewPrivateMemCachedStore(s)
+			var ks []string
+			for k := range all {
+				ks = append(ks, k)
+			}
+			sort.Strings(ks)
+			for i, k := range ks {
+				p := p1
+				if i%2 == 1 {
+					p = p2
+				}
+				if all[k] == nil {
+					p.Delete([]byte(k))
+				} else {
+					p.Put([]byte(k), all[k])
+				}
+			}
+			s.PersistPrivate(p1, p2)
+			e.out.Probes["writer_batch_persistprivate"]++
+		} else {
+			_ = s.PutChangeSet(puts, stores)
+		}
 		ev.ret = e.sched.Seq()
 		var ks []string
 		for k := range all {
